@@ -186,6 +186,16 @@ int main (int argc, char** argv)
       for (unsigned i=0; i<4; i++) { cff wq = F[i] / c;
         snprintf (what, 200, "single precision: (J / c)[%u] = J[%u] / c for c = %g * (%g, %g)", i, i, double (mag), d[0], d[1]);
         expect_true (what, std::abs (Q[i] - wq) <= 1e-5f * std::abs (wq)); } }
+    // the inverse of well-conditioned matrices of extreme and mixed magnitudes is two-sided (det <> 0 and representable)
+    for (double mag : { 1e-140, 1e-100, 1e-77, 1e-10, 1.0, 1e10, 1e77, 1e100, 1e140 }) { Jones<double> S = A; S *= mag; Jones<double> Si = inv (S), L = Si * S, R = S * Si; char what[200];
+      for (unsigned i=0; i<4; i++) { cdd id = (i == 0 || i == 3) ? cdd (1.0) : cdd (0.0);
+        snprintf (what, 200, "inv (J) J = 1 for J of magnitude %g, element %u", mag, i); expect_true (what, std::abs (L[i] - id) <= 1e-13);
+        snprintf (what, 200, "J inv (J) = 1 for J of magnitude %g, element %u", mag, i); expect_true (what, std::abs (R[i] - id) <= 1e-13); } }
+    { Jones<double> D (cdd (1e200, 1e200), cdd (0.0), cdd (0.0), cdd (1e-30, -2e-30)); Jones<double> Di = inv (D), L = Di * D;
+      expect_true ("inv of diag (1e200 (1+i), 1e-30 (1-2i)) is two-sided", std::abs (L[0] - cdd (1.0)) <= 1e-13 && std::abs (L[3] - cdd (1.0)) <= 1e-13 && std::abs (L[1]) <= 1e-13 && std::abs (L[2]) <= 1e-13); }
+    for (float mag : { 1e-15f, 1e-12f, 1e-6f, 1.0f, 1e6f, 1e12f, 1e15f }) { Jones<float> S = F; S *= mag; Jones<float> Si = inv (S), L = Si * S; char what[200];
+      for (unsigned i=0; i<4; i++) { cff id = (i == 0 || i == 3) ? cff (1.0f) : cff (0.0f);
+        snprintf (what, 200, "single precision: inv (J) J = 1 for J of magnitude %g, element %u", double (mag), i); expect_true (what, std::abs (L[i] - id) <= 1e-4f); } }
     // real scalars
     for (double r : { 1e-300, 1e-200, 1e-160, 1e160, 1e200, 1e300, -1e-200, -1e200 }) { Jones<double> Q = A / r; char what[200];
       for (unsigned i=0; i<4; i++) { snprintf (what, 200, "(J / r)[%u] = J[%u] / r for r = %g", i, i, r); expect_true (what, std::abs (Q[i] - A[i] / r) <= 1e-14 * std::abs (A[i] / r)); } }
